@@ -189,6 +189,17 @@ structure Plan where
   frags : List Frag := []
 deriving Repr, DecidableEq
 
+/-- `cp.dirs = append(cp.dirs, dest)` unless `dest == ""` -/
+def Plan.addDir (st : Plan) (dest : Path) : Plan :=
+  if dest = [] then st else { st with dirs := st.dirs ++ [dest] }
+/-- the `.keep` placeholder of an empty directory, unless `dest == ""` -/
+def Plan.addKeep (st : Plan) (dest : Path) : Plan :=
+  if dest = [] then st else { st with files := st.files ++ [(dest ++ [".keep"], none)] }
+/-- a regular file to copy from the host path `p` -/
+def Plan.addFile (st : Plan) (dest p : Path) : Plan := { st with files := st.files ++ [(dest, some p)] }
+/-- extracted manifest text appended to `cp.manifest` -/
+def Plan.addFrags (st : Plan) (fs : List Frag) : Plan := { st with frags := st.frags ++ fs }
+
 inductive Err where
   | notMounted | symlinks | lstat | kind | ftype | manifest
   | fs | mkdir | copy
@@ -247,7 +258,7 @@ def walk (h : Host) (cfg : Cfg) : Nat → Call → Plan → Res Plan
       else if ¬ m.writable then
         match m.coll with
         | none => .err .manifest
-        | some c => cont { st with frags := st.frags ++ extract c (cleanRel (m.path ++ src.drop root.length)) dest }
+        | some c => cont (st.addFrags (extract c (cleanRel (m.path ++ src.drop root.length)) dest))
       else .unmodelled
   | _ + 1, .below _ _ [], st => .ok st
   | fuel + 1, .below dest src ((mnt, m) :: ms), st =>
@@ -262,12 +273,9 @@ def walk (h : Host) (cfg : Cfg) : Nat → Call → Plan → Res Plan
       if n = 0 then .err .symlinks
       else walk h cfg fuel (.mount dest (if abs then t else cleanAbs (src.dropLast ++ t)) (n - 1) true) st
     | .found p .dir =>
-      let st := if dest = [] then st else { st with dirs := st.dirs ++ [dest] }
-      let names := h.children p
-      if names = [] then
-        .ok (if dest = [] then st else { st with files := st.files ++ [(dest ++ [".keep"], none)] })
-      else walk h cfg fuel (.children dest src n (sortNames names)) st
-    | .found p (.file _) => .ok { st with files := st.files ++ [(dest, some p)] }
+      if h.children p = [] then .ok ((st.addDir dest).addKeep dest)
+      else walk h cfg fuel (.children dest src n (sortNames (h.children p))) (st.addDir dest)
+    | .found p (.file _) => .ok (st.addFile dest p)
     | .found _ .special => .err .ftype
     | _ => .err .lstat
   | _ + 1, .children _ _ _ [], st => .ok st
